@@ -1,1 +1,397 @@
-//! Direct, single-threaded seeded driver of each built-in policy (C14's call-sequence part).
+//! CACHE-POLICY family (C14, direct view): 1–3 simulated threads call one built-in eviction
+//! policy directly (admit / access / remove / evict / clear with arbitrary keys and costs,
+//! including zero cost and repeated keys). The seeded scheduler decides how the per-thread call
+//! sequences merge; a gate records the effective order, and the recorded call log is replayed
+//! against a reference bookkeeping of tracked keys (strict: every cost is known here, unlike in
+//! the system view where read batches may carry the cost of an older entry).
+
+use super::PolicyKind;
+use crate::chan::conc::{Knobs, ModeSer};
+use crate::core::batch::{hash_str, Evaluated, Family, Violation};
+use crate::core::rng::Rng;
+use crate::core::run::{FailKind, RunCfg, RunOut};
+use fibre_cache::policy::AdmissionDecision;
+use serde::{Deserialize, Serialize};
+use serde_json::{json, Value};
+use std::cell::RefCell;
+use std::collections::{BTreeMap, BTreeSet};
+use std::sync::Arc;
+
+#[derive(Clone, Debug, Serialize, Deserialize, PartialEq)]
+pub enum PCall {
+  Admit { k: u8, cost: u64 },
+  Access { k: u8 },
+  Remove { k: u8 },
+  Evict { want: u64 },
+  Clear,
+}
+
+#[derive(Clone, Debug, Serialize, Deserialize)]
+pub struct PolSc {
+  pub policy: PolicyKind,
+  pub capacity: u64,
+  pub threads: Vec<Vec<PCall>>,
+  pub knobs: Knobs,
+}
+
+#[derive(Clone, Debug)]
+pub enum PLog {
+  Admit { k: u8, cost: u64, decision: &'static str, victims: Vec<u8> },
+  Access { k: u8, cost: u64 },
+  Remove { k: u8 },
+  Evict { want: u64, victims: Vec<u8>, freed: u64 },
+  Clear,
+  /// final evict(everything): every tracked key must still be evictable
+  Drain { victims: Vec<u8>, freed: u64 },
+}
+
+thread_local! {
+  static LOG: RefCell<Vec<PLog>> = const { RefCell::new(Vec::new()) };
+  /// last admitted cost per key (what a consistent caller passes to on_access)
+  static COSTS: RefCell<BTreeMap<u8, u64>> = const { RefCell::new(BTreeMap::new()) };
+  static CUR: RefCell<Option<Arc<PolSc>>> = const { RefCell::new(None) };
+}
+
+const KEYS: u64 = 5;
+
+fn policy_main() {
+  let sc: Arc<PolSc> = CUR.with(|c| c.borrow().clone()).expect("no current scenario");
+  let pol: Arc<Box<dyn fibre_cache::policy::CachePolicy<u8, super::Val>>> = Arc::new(sc.policy.make(sc.capacity));
+  let gate = Arc::new(shuttle::sync::Mutex::new(()));
+  let mut joins = vec![];
+  for i in 0..sc.threads.len() {
+    let sc2 = sc.clone();
+    let pol = pol.clone();
+    let gate = gate.clone();
+    joins.push(shuttle::thread::spawn(move || {
+      for call in &sc2.threads[i] {
+        shuttle::thread::yield_now();
+        let _g = gate.lock().unwrap();
+        let entry = match call {
+          PCall::Admit { k, cost } => {
+            let d = pol.on_admit(k, *cost);
+            let (decision, victims) = match d {
+              AdmissionDecision::Admit => ("Admit", vec![]),
+              AdmissionDecision::Reject => ("Reject", vec![]),
+              AdmissionDecision::AdmitAndEvict(v) => ("AdmitAndEvict", v),
+            };
+            if decision != "Reject" {
+              COSTS.with(|c| c.borrow_mut().insert(*k, *cost));
+            }
+            PLog::Admit { k: *k, cost: *cost, decision, victims }
+          }
+          PCall::Access { k } => {
+            let cost = COSTS.with(|c| c.borrow().get(k).copied().unwrap_or(1));
+            pol.on_access(k, cost);
+            PLog::Access { k: *k, cost }
+          }
+          PCall::Remove { k } => {
+            pol.on_remove(k);
+            PLog::Remove { k: *k }
+          }
+          PCall::Evict { want } => {
+            let (victims, freed) = pol.evict(*want);
+            PLog::Evict { want: *want, victims, freed }
+          }
+          PCall::Clear => {
+            pol.clear();
+            PLog::Clear
+          }
+        };
+        LOG.with(|l| l.borrow_mut().push(entry));
+      }
+    }));
+  }
+  for j in joins {
+    j.join().unwrap();
+  }
+  let (victims, freed) = pol.evict(1 << 40);
+  LOG.with(|l| l.borrow_mut().push(PLog::Drain { victims, freed }));
+}
+
+#[derive(Clone, Debug)]
+struct Tracked {
+  cost: u64,
+  /// cost of the admission that started the tracking (a policy that ignores re-admissions
+  /// keeps reporting this one)
+  first_cost: u64,
+}
+
+pub fn evaluate(sc: &PolSc, log: &[PLog], out: &RunOut) -> Vec<Violation> {
+  let mk = |class: &str, detail: String| {
+    let mut facets = BTreeMap::new();
+    facets.insert("policy".to_string(), format!("{:?}", sc.policy));
+    facets.insert("view".to_string(), "direct".to_string());
+    Violation { property: "C14".into(), class: class.into(), facets, detail }
+  };
+  let mut vs = vec![];
+  if let Some(f) = &out.failure {
+    let class = match f.kind {
+      FailKind::Deadlock => "deadlock",
+      FailKind::StepBound => "step_bound",
+      FailKind::Panic => "panic",
+    };
+    vs.push(mk(class, format!("{} at {}", f.message, f.location)));
+    return vs;
+  }
+  let mut tracked: BTreeMap<u8, Tracked> = BTreeMap::new();
+  // definition order: LRU = recency (front = most recent), FIFO = insertion
+  let mut order: Vec<u8> = vec![];
+  let lru = sc.policy == PolicyKind::Lru;
+  let fifo = sc.policy == PolicyKind::Fifo;
+  let check_victims = |what: &str, want: u64, victims: &[u8], freed: u64, tracked: &mut BTreeMap<u8, Tracked>, order: &mut Vec<u8>, vs: &mut Vec<Violation>, drain: bool| {
+    let total_before: u64 = tracked.values().map(|t| t.cost).sum();
+    let mut seen = BTreeSet::new();
+    let mut exp = 0u64;
+    let mut exp_first = 0u64;
+    let mut all_tracked = true;
+    if (lru || fifo) && victims.iter().all(|v| tracked.contains_key(v)) {
+      // victims must be the oldest entries, in order
+      let expect: Vec<u8> = order.iter().rev().take(victims.len()).copied().collect();
+      if expect != victims {
+        vs.push(mk(if lru { "lru_order_violated" } else { "fifo_order_violated" }, format!("{what} nominated {victims:?} but by definition the next victims are {expect:?} (oldest first; order oldest..newest = {:?})", order.iter().rev().collect::<Vec<_>>())));
+      }
+    }
+    for v in victims {
+      if !seen.insert(*v) {
+        vs.push(mk("victim_nominated_twice", format!("{what} nominated key {v} twice")));
+        continue;
+      }
+      match tracked.remove(v) {
+        Some(t) => {
+          exp += t.cost;
+          exp_first += t.first_cost;
+          order.retain(|k| k != v);
+        }
+        None => {
+          all_tracked = false;
+          vs.push(mk("evict_victim_not_tracked", format!("{what} nominated key {v} that the policy is not tracking (never admitted, already nominated, or removed)")));
+        }
+      }
+    }
+    if all_tracked && freed != exp {
+      if freed == exp_first {
+        vs.push(mk("readmit_cost_not_updated", format!("{what} reported {freed} freed for {victims:?}: the costs of their first admissions; their re-admissions carried costs that sum to {exp}")));
+      } else {
+        vs.push(mk("evict_reported_wrong_cost", format!("{what} reported {freed} freed but the recorded costs of its victims {victims:?} sum to {exp}")));
+      }
+    }
+    if drain {
+      if !tracked.is_empty() {
+        vs.push(mk("tracked_key_not_evictable", format!("after the workload evict(everything) returned {victims:?} but the policy was also tracking {:?} (admitted, never nominated, never removed)", tracked.keys().collect::<Vec<_>>())));
+      }
+    } else if total_before >= want && exp < want && all_tracked && freed >= want && freed == exp_first {
+      // the policy believes it freed enough because it still holds first-admission costs
+      vs.push(mk("readmit_cost_not_updated", format!("{what} stopped after victims {victims:?} worth {exp} because it reports {freed} freed: the costs of their first admissions")));
+    } else if total_before >= want && exp < want && all_tracked {
+      vs.push(mk("evict_freed_less_than_requested", format!("{what} freed only {exp} although the tracked keys were worth {total_before} (left: {:?})", tracked.iter().map(|(k, t)| (*k, t.cost)).collect::<Vec<_>>())));
+    }
+  };
+  for (i, e) in log.iter().enumerate() {
+    match e {
+      PLog::Admit { k, cost, decision, victims } => {
+        // victims of an admission: tracked keys (or the admitted key itself)
+        let mut seen = BTreeSet::new();
+        for v in victims {
+          if !seen.insert(*v) {
+            vs.push(mk("victim_nominated_twice", format!("call {i}: on_admit({k}, {cost}) nominated key {v} twice")));
+            continue;
+          }
+          if tracked.remove(v).is_none() && v != k {
+            vs.push(mk("admission_victim_not_tracked", format!("call {i}: on_admit({k}, {cost}) nominated victim {v} that the policy is not tracking")));
+          }
+          order.retain(|x| x != v);
+        }
+        if *decision != "Reject" && !victims.contains(k) {
+          match tracked.get_mut(k) {
+            Some(t) => {
+              t.cost = *cost;
+              if lru {
+                order.retain(|x| x != k);
+                order.insert(0, *k);
+              }
+            }
+            None => {
+              tracked.insert(*k, Tracked { cost: *cost, first_cost: *cost });
+              order.retain(|x| x != k);
+              order.insert(0, *k);
+            }
+          }
+        }
+      }
+      PLog::Access { k, .. } => {
+        if lru && tracked.contains_key(k) {
+          order.retain(|x| x != k);
+          order.insert(0, *k);
+        }
+      }
+      PLog::Remove { k } => {
+        tracked.remove(k);
+        order.retain(|x| x != k);
+      }
+      PLog::Evict { want, victims, freed } => {
+        check_victims(&format!("call {i}: evict({want})"), *want, victims, *freed, &mut tracked, &mut order, &mut vs, false);
+      }
+      PLog::Clear => {
+        tracked.clear();
+        order.clear();
+      }
+      PLog::Drain { victims, freed } => {
+        check_victims("final evict(everything)", 0, victims, *freed, &mut tracked, &mut order, &mut vs, true);
+      }
+    }
+  }
+  vs
+}
+
+pub struct PolicyFamily;
+
+impl Family for PolicyFamily {
+  type Sc = PolSc;
+
+  fn name(&self) -> &'static str {
+    "CACHE-POLICY"
+  }
+
+  fn rule(&self) -> &'static str {
+    "one case = one built-in policy instance (capacity 1-8 for the capacity-sized ones) driven directly by 1-3 simulated threads x <=10 calls (admit / access / remove / evict / clear over 5 keys, costs 0-4) whose merge order the seeded scheduler decides, followed by evict(everything); non-trivial = >=1 evict that returned a victim and >=3 admissions; distinct = distinct scheduler decision-trace hash"
+  }
+
+  fn needs_fresh_thread(&self) -> bool {
+    false
+  }
+
+  fn max_steps(&self) -> usize {
+    50_000
+  }
+
+  fn generate(&self, rng: &mut Rng) -> PolSc {
+    let policy = *rng.pick(&PolicyKind::ALL[..8]);
+    let capacity = *rng.pick(&[1u64, 2, 3, 4, 6, 8]);
+    let n = rng.range(1, 3);
+    let mut threads = vec![];
+    for _ in 0..n {
+      let len = rng.range(2, 10);
+      let ops = (0..len)
+        .map(|_| {
+          let k = rng.below(KEYS) as u8;
+          match rng.below(16) {
+            0..=6 => PCall::Admit { k, cost: *rng.pick(&[1u64, 1, 1, 2, 3, 4, 0]) },
+            7..=9 => PCall::Access { k },
+            10 | 11 => PCall::Remove { k },
+            12..=14 => PCall::Evict { want: *rng.pick(&[1u64, 1, 2, 3, 5, 0]) },
+            _ => {
+              if rng.chance(1, 3) {
+                PCall::Clear
+              } else {
+                PCall::Access { k }
+              }
+            }
+          }
+        })
+        .collect();
+      threads.push(ops);
+    }
+    let total: u32 = threads.iter().map(|t: &Vec<PCall>| t.len() as u32).sum();
+    let mut knobs = Knobs::gen(rng, false, 20 * (total + 4));
+    knobs.max_steps = 50_000;
+    PolSc { policy, capacity, threads, knobs }
+  }
+
+  fn begin(&self, sc: &PolSc, record_trace: bool) -> RunCfg {
+    LOG.with(|l| l.borrow_mut().clear());
+    COSTS.with(|c| c.borrow_mut().clear());
+    CUR.with(|c| *c.borrow_mut() = Some(Arc::new(sc.clone())));
+    sc.knobs.run_cfg(record_trace)
+  }
+
+  fn body(&self) -> Arc<dyn Fn() + Send + Sync> {
+    Arc::new(policy_main)
+  }
+
+  fn finish(&self, sc: &PolSc, out: RunOut) -> Evaluated {
+    CUR.with(|c| *c.borrow_mut() = None);
+    let log = LOG.with(|l| std::mem::take(&mut *l.borrow_mut()));
+    if std::env::var("VERIF_DUMP").is_ok() {
+      for (i, e) in log.iter().enumerate() {
+        println!("  call {i}: {e:?}");
+      }
+      println!("  failure={:?}", out.failure);
+    }
+    let violations = evaluate(sc, &log, &out);
+    let mut states: Vec<u64> = log
+      .iter()
+      .map(|e| {
+        let s = match e {
+          PLog::Admit { decision, victims, .. } => format!("admit|{decision}|{}", victims.len().min(2)),
+          PLog::Access { .. } => "access".to_string(),
+          PLog::Remove { .. } => "remove".to_string(),
+          PLog::Evict { want, victims, freed } => format!("evict|{}|{}", victims.len().min(3), freed >= want),
+          PLog::Clear => "clear".to_string(),
+          PLog::Drain { victims, .. } => format!("drain|{}", victims.len().min(3)),
+        };
+        hash_str(&format!("{:?}|{s}", sc.policy))
+      })
+      .collect();
+    states.sort();
+    states.dedup();
+    let admits = log.iter().filter(|e| matches!(e, PLog::Admit { .. })).count();
+    let evicted = log.iter().any(|e| matches!(e, PLog::Evict { victims, .. } if !victims.is_empty()));
+    Evaluated { out, violations, states, nontrivial: admits >= 3 && evicted }
+  }
+
+  fn shrink(&self, sc: &PolSc) -> Vec<PolSc> {
+    let mut out = vec![];
+    if sc.threads.len() > 1 {
+      for i in 0..sc.threads.len() {
+        let mut c = sc.clone();
+        c.threads.remove(i);
+        out.push(c);
+      }
+      // merge everything into one thread (keeps the calls, removes the schedule dependence)
+      let mut c = sc.clone();
+      let merged: Vec<PCall> = c.threads.drain(..).flatten().collect();
+      c.threads = vec![merged];
+      out.push(c);
+    }
+    for (ti, t) in sc.threads.iter().enumerate() {
+      if t.len() > 1 {
+        for oi in 0..t.len() {
+          let mut c = sc.clone();
+          c.threads[ti].remove(oi);
+          out.push(c);
+        }
+      }
+      for (oi, op) in t.iter().enumerate() {
+        if let PCall::Admit { k, cost } = op {
+          if *cost > 1 {
+            let mut c = sc.clone();
+            c.threads[ti][oi] = PCall::Admit { k: *k, cost: 1 };
+            out.push(c);
+          }
+        }
+      }
+    }
+    if sc.knobs.mode != ModeSer::Uniform {
+      let mut c = sc.clone();
+      c.knobs.mode = ModeSer::Uniform;
+      out.push(c);
+    }
+    out.retain(|c| !c.threads.is_empty() && c.threads.iter().all(|t| !t.is_empty()));
+    out
+  }
+
+  fn reseed(&self, sc: &PolSc, seed: u64) -> PolSc {
+    let mut c = sc.clone();
+    c.knobs.seed = seed;
+    c
+  }
+
+  fn components(&self) -> Value {
+    json!({
+      "real": ["fibre_cache::policy::{tinylfu, sieve, slru, arc, lru, fifo, clock, random} behind the public CachePolicy trait, lru_list"],
+      "stub": ["parking_lot::Mutex -> shuttle Mutex", "rand / ahash -> deterministic shims seeded from the run",
+               "the cache around the policy is absent in this lane: the harness plays janitor and handles"],
+    })
+  }
+}
